@@ -78,8 +78,10 @@ pub mod fs {
 }
 pub mod std { pub mod fs { use super::super::*; pub fn read_link(p: &PathBuf) -> io::Result<PathBuf> { let n = p.0 .0 as usize; if IS_LINK[n] { Ok(PathBuf(Path(TARGET[n], TARGET_RELATIVE[n]))) } else { Err(IoError) } } } }
 pub mod zip { use super::*; pub struct ZipFile(pub u8); pub struct ZipArchive;
-    impl ZipArchive { pub fn new(_f: File) -> Result<ZipArchive, ()> { if unsafe { ZIP_CORRUPT } { Err(()) } else { Ok(ZipArchive) } } pub fn len(&self) -> usize { 2 }
-        pub fn by_index(&mut self, i: usize) -> Result<ZipFile, ()> { if unsafe { ZIP_BAD_MEMBER } as usize == i { Err(()) } else { Ok(ZipFile(i as u8 + 1)) } } } }
+    // like the real ZipError, the archive error converts into an I/O error (so that `?` on it compiles, as it does in the crate)
+    #[derive(Debug)] pub struct ZipError; impl From<ZipError> for IoError { fn from(_e: ZipError) -> IoError { IoError } }
+    impl ZipArchive { pub fn new(_f: File) -> Result<ZipArchive, ZipError> { if unsafe { ZIP_CORRUPT } { Err(ZipError) } else { Ok(ZipArchive) } } pub fn len(&self) -> usize { 2 }
+        pub fn by_index(&mut self, i: usize) -> Result<ZipFile, ZipError> { if unsafe { ZIP_BAD_MEMBER } as usize == i { Err(ZipError) } else { Ok(ZipFile(i as u8 + 1)) } } } }
 pub struct FileInfo(pub u8);
 pub fn to_file_info(f: &zip::ZipFile) -> FileInfo { FileInfo(f.0) }
 pub struct Repository;
